@@ -16,6 +16,7 @@ import (
 	"math/big"
 
 	"gonum.org/v1/gonum/dsp/fourier"
+	"gonum.org/v1/gonum/dsp/transform"
 
 	"gonum.org/v1/gonum/verifharness/internal/core"
 )
@@ -30,6 +31,7 @@ type exactCase struct {
 	Mask []int   `json:"mask"`
 	L1   int64   `json:"l1"`
 	TolK int64   `json:"tolk"`
+	Den  int64   `json:"den,omitempty"` // want is given as numerators over den (default 1)
 	Var  string  `json:"var,omitempty"` // set in failure cases: which calling variant failed
 }
 
@@ -134,6 +136,16 @@ func variantsFor(kind string, n int, x []float64) ([]variant, error) {
 			}
 			return t.SinSequence, t.Reset
 		}), nil
+	case "H.as":
+		return []variant{
+			{"fresh/nil", func() []float64 { return fromC(transform.NewHilbert(n).AnalyticSignal(nil, idF(x))) }},
+			{"repeat/dst", func() []float64 { // the same object was used for other data before
+				h := transform.NewHilbert(n)
+				h.AnalyticSignal(nil, junkF(n, false))
+				h.AnalyticSignal(make([]complex128, n), junkF(n, false))
+				return fromC(h.AnalyticSignal(make([]complex128, n), idF(x)))
+			}},
+		}, nil
 	case "R2.coef", "R2.seq", "R4.coef", "R4.seq":
 		f := map[string]func([]complex128) []complex128{
 			"R2.coef": fourier.CoefficientsRadix2, "R2.seq": fourier.SequenceRadix2,
@@ -146,16 +158,16 @@ func variantsFor(kind string, n int, x []float64) ([]variant, error) {
 var two52 = new(big.Rat).SetInt(new(big.Int).Lsh(big.NewInt(1), 52))
 
 // within reports whether |obs - want| <= tol, decided exactly; ratio is |obs-want|/tol (float, for statistics).
-func within(obs float64, want int64, tol *big.Rat, tolf float64) (bool, float64) {
+func within(obs float64, want, den int64, tol *big.Rat, tolf float64) (bool, float64) {
 	if math.IsNaN(obs) || math.IsInf(obs, 0) {
 		return false, math.Inf(1)
 	}
-	d := math.Abs(obs - float64(want))
+	d := math.Abs(obs - float64(want)/float64(den))
 	if d <= tolf/2 {
 		return true, d / tolf
 	}
 	r := new(big.Rat).SetFloat64(obs)
-	r.Sub(r, new(big.Rat).SetInt64(want))
+	r.Sub(r, big.NewRat(want, den))
 	r.Abs(r)
 	return r.Cmp(tol) <= 0, d / tolf
 }
@@ -173,7 +185,10 @@ func replayExact(in *core.Lines, args []string, seed int64, sum *core.Summary) e
 		if err := json.Unmarshal(line, &c); err != nil {
 			return fmt.Errorf("line %d: %v", in.N, err)
 		}
-		cplxOut := map[string]bool{"C.coef": true, "C.seq": true, "FFT.coef": true,
+		if c.Den == 0 {
+			c.Den = 1
+		}
+		cplxOut := map[string]bool{"C.coef": true, "C.seq": true, "FFT.coef": true, "H.as": true,
 			"R2.coef": true, "R2.seq": true, "R4.coef": true, "R4.seq": true}[c.K]
 		vars, err := variantsFor(c.K, c.N, floats(c.X))
 		if err != nil {
@@ -210,13 +225,16 @@ func replayExact(in *core.Lines, args []string, seed int64, sum *core.Summary) e
 				if cplxOut {
 					e = i / 2
 				}
+				if len(c.Mask) == len(c.Want) { // mask per flat value
+					e = i
+				}
 				if len(c.Mask) > 0 && c.Mask[e] == 0 {
 					continue
 				}
 				if w != 0 {
 					nz = true
 				}
-				okv, ratio := within(got[i], w, tol, tolf)
+				okv, ratio := within(got[i], w, c.Den, tol, tolf)
 				if ratio > maxRatio && okv {
 					maxRatio = ratio
 				}
@@ -232,8 +250,8 @@ func replayExact(in *core.Lines, args []string, seed int64, sum *core.Summary) e
 				if cplxOut {
 					what = fmt.Sprintf("element %d (%s part)", bad/2, []string{"real", "imaginary"}[bad%2])
 				}
-				sum.Fail(sig("value"), fmt.Sprintf("n=%d fam=%d dir=%s %s: %s is %v, the defining sum gives %d (tolerance %.3g)",
-					c.N, c.Fam, c.Dir, v.name, what, got[bad], c.Want[bad], tolf), cc)
+				sum.Fail(sig("value"), fmt.Sprintf("n=%d fam=%d dir=%s %s: %s is %v, the defining sum gives %d/%d (tolerance %.3g)",
+					c.N, c.Fam, c.Dir, v.name, what, got[bad], c.Want[bad], c.Den, tolf), cc)
 				continue
 			}
 			if sum.Cases%997 == 1 {
